@@ -9,6 +9,7 @@ import (
 	"crypto/x509"
 	"errors"
 	"fmt"
+	"os"
 	"regexp"
 	"strconv"
 	"strings"
@@ -20,11 +21,12 @@ import (
 	"github.com/notaryproject/notation-go"
 	"github.com/notaryproject/notation-go/verifier/trustpolicy"
 	"github.com/notaryproject/notation-go/verifier/truststore"
+	pluginfw "github.com/notaryproject/notation-plugin-framework-go/plugin"
 )
 
 // ---- trust store ----
 
-type storeKey struct {
+type StoreKey struct {
 	Type truststore.Type
 	Name string
 }
@@ -32,24 +34,24 @@ type storeKey struct {
 // MockStore is an instrumented truststore.X509TrustStore.
 type MockStore struct {
 	mu    sync.Mutex
-	Certs map[storeKey][]*x509.Certificate
-	Fail  map[storeKey]bool
-	Calls []storeKey
+	Certs map[StoreKey][]*x509.Certificate
+	Fail  map[StoreKey]bool
+	Calls []StoreKey
 }
 
 func NewMockStore() *MockStore {
-	return &MockStore{Certs: map[storeKey][]*x509.Certificate{}, Fail: map[storeKey]bool{}}
+	return &MockStore{Certs: map[StoreKey][]*x509.Certificate{}, Fail: map[StoreKey]bool{}}
 }
 
 func (m *MockStore) Put(t truststore.Type, name string, certs ...*x509.Certificate) {
-	k := storeKey{t, name}
+	k := StoreKey{t, name}
 	m.Certs[k] = append(m.Certs[k], certs...)
 }
 
 func (m *MockStore) GetCertificates(ctx context.Context, storeType truststore.Type, namedStore string) ([]*x509.Certificate, error) {
 	m.mu.Lock()
 	defer m.mu.Unlock()
-	k := storeKey{storeType, namedStore}
+	k := StoreKey{storeType, namedStore}
 	m.Calls = append(m.Calls, k)
 	if m.Fail[k] {
 		return nil, truststore.TrustStoreError{Msg: fmt.Sprintf("mock: cannot load store %s:%s", storeType, namedStore)}
@@ -204,3 +206,56 @@ func Short(s string, n int) string {
 }
 
 var _ = strings.Contains
+
+// ---- plugin manager / plugin ----
+
+// MockPlugin is a scripted plugin (all plugin interfaces).
+type MockPlugin struct {
+	Meta      *pluginfw.GetMetadataResponse
+	MetaErr   error
+	VerifyErr error
+	Resp      *pluginfw.VerifySignatureResponse
+	VerifyReq []*pluginfw.VerifySignatureRequest
+	MetaCalls int
+}
+
+func (p *MockPlugin) GetMetadata(ctx context.Context, req *pluginfw.GetMetadataRequest) (*pluginfw.GetMetadataResponse, error) {
+	p.MetaCalls++
+	return p.Meta, p.MetaErr
+}
+func (p *MockPlugin) VerifySignature(ctx context.Context, req *pluginfw.VerifySignatureRequest) (*pluginfw.VerifySignatureResponse, error) {
+	p.VerifyReq = append(p.VerifyReq, req)
+	return p.Resp, p.VerifyErr
+}
+func (p *MockPlugin) DescribeKey(ctx context.Context, req *pluginfw.DescribeKeyRequest) (*pluginfw.DescribeKeyResponse, error) {
+	return nil, errors.New("mock: not a signing plugin")
+}
+func (p *MockPlugin) GenerateSignature(ctx context.Context, req *pluginfw.GenerateSignatureRequest) (*pluginfw.GenerateSignatureResponse, error) {
+	return nil, errors.New("mock: not a signing plugin")
+}
+func (p *MockPlugin) GenerateEnvelope(ctx context.Context, req *pluginfw.GenerateEnvelopeRequest) (*pluginfw.GenerateEnvelopeResponse, error) {
+	return nil, errors.New("mock: not a signing plugin")
+}
+
+// MockManager is an instrumented plugin.Manager.
+type MockManager struct {
+	Plugins map[string]*MockPlugin
+	Gets    []string
+}
+
+func (m *MockManager) Get(ctx context.Context, name string) (pluginfw.Plugin, error) {
+	m.Gets = append(m.Gets, name)
+	p, ok := m.Plugins[name]
+	if !ok {
+		return nil, fmt.Errorf("mock: plugin %q not installed: %w", name, os.ErrNotExist)
+	}
+	return p, nil
+}
+
+func (m *MockManager) List(ctx context.Context) ([]string, error) {
+	var out []string
+	for k := range m.Plugins {
+		out = append(out, k)
+	}
+	return out, nil
+}
